@@ -44,6 +44,10 @@ type Spec struct {
 	// nothing is broken).
 	MinDistinctQuick, MinDistinctThorough int
 	Body                                  func(r *Run)
+	// Prepare, if set, runs once in the parent before the children start (for
+	// example to build the repository's real binaries into workDir, which the
+	// children see as Run.WorkDir). An error makes the run broken (exit 2).
+	Prepare func(tier, workDir string) error
 	// PostMerge, if set, is called by the parent with the merged counters and
 	// tier; the strings it returns are recorded as inconclusive reasons (for
 	// example "window X was never hit").
@@ -379,6 +383,12 @@ func (r *Run) parent() int {
 	}
 	if rv != nil {
 		shards, raceShards = 1, 0
+	}
+	if s.Prepare != nil {
+		if err := s.Prepare(r.Tier, work); err != nil {
+			fmt.Printf("BROKEN: prepare failed: %v\n", err)
+			return 2
+		}
 	}
 	total := shards + raceShards
 	type child struct {
